@@ -44,7 +44,7 @@ Definition as_nkind (t : tree) : option nkind :=
   end.
 
 (* type codes: 0 String 1 Unicode 2 (none given) 3 Integer 4 Boolean 5 Numeric 6 Float 7 Date 8 Time
-   9 DateTime;  value: L [I kind; payload] *)
+   9 DateTime 10 TypeDecorator(String) holding non-str objects;  value: L [I kind; payload] *)
 Definition as_value (ty : Z) (t : tree) : option value :=
   match t with
   | L [I 0%Z] => Some VNone
@@ -52,6 +52,13 @@ Definition as_value (ty : Z) (t : tree) : option value :=
     match as_str ts with
     | Some s => if Z.eqb ty 0 then Some (VStr TString s) else if Z.eqb ty 1 then Some (VStr TUnicode s)
                 else if Z.eqb ty 2 then Some (VStr TAuto s) else None
+    | None => None
+    end
+  (* a non-str Python object of a TypeDecorator over String (process_bind_param -> str): rendered by
+     the String processor *)
+  | L [I 8%Z; ts] =>
+    match as_str ts with
+    | Some s => if Z.eqb ty 10 then Some (VStr TString s) else None
     | None => None
     end
   | L [I 2%Z; I z] => if Z.eqb ty 3 then Some (VInt z) else None
@@ -133,6 +140,31 @@ Definition as_escmode (t : tree) : option escmode :=
 Definition of_lex (o : option (str * str)) : tree :=
   match o with Some (s, rest) => L [I 1%Z; of_str s; of_str rest] | None => L [I 0%Z] end.
 
+(* ---- post-compile substitution: bindings  L [name; I kind; L values]
+   kind 0 = scalar literal_execute string, 1 = expanding literal_execute list of strings,
+   2 = expanding bound list (qmark placeholders) *)
+Fixpoint join_q (n : nat) : str :=
+  match n with O => [] | S O => [63] | S k => 63 :: SEP ++ join_q k end.
+Definition as_binding (d : dialect) (fl : flags) (t : tree) : option (str * str) :=
+  match t with
+  | L [tn; I k; tv] =>
+    match as_str tn, as_list_of as_str tv with
+    | Some n, Some vs =>
+      let lits := map (render_string d fl false) vs in
+      if Z.eqb k 0 then match lits with [x] => Some (n, x) | _ => None end
+      else if Z.eqb k 1 then match lits with [] => None | _ => Some (n, render_in_list lits) end
+      else if Z.eqb k 2 then match lits with [] => None | _ => Some (n, join_q (length lits)) end
+      else None
+    | _, _ => None
+    end
+  | _ => None
+  end.
+Fixpoint lookup (bs : list (str * str)) (n : str) : option str :=
+  match bs with
+  | [] => None
+  | (k, v) :: r => if str_eqb k n then Some v else lookup r n
+  end.
+
 Definition run_case (t : tree) : tree :=
   match t with
   (* rendering *)
@@ -163,6 +195,19 @@ Definition run_case (t : tree) : tree :=
   (* the numeric lexer *)
   | L [I 4%Z; tr] =>
     match as_str tr with Some r => of_lex (lex_signed r) | None => bad_input end
+  (* post-compile substitution of the pre-expanded statement text *)
+  | L [I 6%Z; tcfg; tpre; tbs] =>
+    match as_cfg tcfg, as_str tpre with
+    | Some (d, fl, _), Some pre =>
+      match as_list_of (as_binding d fl) tbs with
+      | Some bs => match pcsub (lookup bs) 0 pre with
+                   | POk o => L [I 0%Z; of_str o]
+                   | PKeyError => L [I 3%Z]
+                   end
+      | None => bad_input
+      end
+    | _, _ => bad_input
+    end
   (* the driver's %% collapse *)
   | L [I 5%Z; tr] =>
     match as_str tr with Some r => of_str (collapse r) | None => bad_input end
